@@ -67,7 +67,11 @@ def _source(doc, fmt_line):
             'def func(x: int, *args, **kw) -> str:', '    ' + lit,
             'mvar = 1', lit,
             'class Base:', '    def inh(self):', '        ' + lit,
-            'class Derived(Base):', '    def inh(self):', '        pass']
+            'class Derived(Base):', '    def inh(self):', '        pass',
+            # the same text attached after the fact (X.__doc__ = ...) to a class and a property that were documented differently before
+            'class Late:', '    ' + repr('Initial text.\n\n@ivar early: an attribute documented by the first docstring\n'),
+            '    @property', '    def lp(self):', '        ' + repr('Initial property text.'),
+            'Late.__doc__ = ' + lit, 'Late.lp.__doc__ = ' + lit]
     return '\n'.join(src) + '\n'
 
 
@@ -110,6 +114,15 @@ def _cases(tier, seed):
             combos = [(rnd.choice(FORMATS), rnd.random() < 0.5)]
         for f, p in combos:
             yield {'doc': t, 'docformat': f, 'processtypes': p}
+    # every symbol and escape code the epytext parser accepts, between plain words that must survive
+    try:
+        from pydoctor.epydoc.markup import epytext as _ep
+        codes = ['S{%s}' % x for x in _ep.SYMBOLS] + ['E{%s}' % x for x in _ep._ESCAPES] + ['S{nosuchsymbol}', 'E{nosuch}', 'S{}']
+    except Exception:     # noqa
+        codes = []
+    for k, c in enumerate(codes):
+        if tier == 'thorough' or k % 2 == seed % 2 or 'inf' in c or 'E{' in c:
+            yield {'doc': f'Before qzxa {c} after qzxb.\n\n@return: value qzxc {c} end\n', 'docformat': 'epytext', 'processtypes': False}
     # the docformat can also be chosen per module
     for f in FORMATS:
         yield {'doc': 'L{x} `y` Args:\n    z: w', 'docformat': 'epytext', 'module_docformat': f, 'processtypes': False}
@@ -211,6 +224,32 @@ def _check1(case):
         if 'm.Derived.inh' in system.parse_errors['docstring']:
             fails.append({'observed': 'a problem of the docstring of m.Base.inh is reported against m.Derived.inh, which only inherits it',
                           'required': 'the problem is reported against that object', 'class': 'inherited-report'})
+    # a docstring attached by assignment to __doc__ is a docstring like any other
+    for late, ref in (('m.Late', 'm.K'), ('m.Late.lp', 'm.K.prop')):
+        lo, ro = system.allobjects.get(late), system.allobjects.get(ref)
+        if lo is None or ro is None or late not in got or ref not in got:
+            continue
+        if lo.docstring != doc:          # (the assigned text is taken as it is; a literal docstring is cleaned of its indentation)
+            fails.append({'observed': f'{late}.docstring is {lo.docstring!r:.80}, assigned was {doc!r:.80}', 'required': 'the assigned text is the docstring',
+                          'class': 'late-docstring'})
+        elif 'Initial' in html.unescape(got[late][0]) and 'Initial' not in (lo.docstring or ''):
+            fails.append({'observed': f'{late}: the text shown is the one that was replaced: {html.unescape(got[late][0])!r:.160}', 'required': 'the docstring is rendered',
+                          'class': 'late-stale'})
+        elif lo.docstring == ro.docstring and lo.docstring.strip() and type(lo.parsed_docstring) is not type(ro.parsed_docstring):
+            fails.append({'observed': f'{late} (assigned docstring) is parsed as {type(lo.parsed_docstring).__name__}, the same text on {ref} as {type(ro.parsed_docstring).__name__}',
+                          'required': 'any docstring text attached to any kind of object is treated alike', 'class': 'late-parsed'})
+    # marker words of the docstring (plain words next to the markup under test) are never lost, whichever way the docstring is rendered
+    for n in TARGETS:
+        o = system.allobjects.get(n)
+        if o is None or not o.docstring or n not in got:
+            continue
+        for w in re.findall(r'qzx[a-z]', o.docstring):
+            if w == 'qzxc' and n not in ('m.K.meth', 'm.func'):
+                continue        # (@return on something that does not return: reported, not shown)
+            if w not in got[n][0]:
+                fails.append({'observed': f'{n}: the word {w!r} of the docstring is not in the rendered text: {html.unescape(got[n][0])!r:.200}',
+                              'required': 'the docstring is rendered, or its complete original text is shown as plain text', 'class': 'words-lost'})
+                break
     effective = case.get('module_docformat') or case['docformat']
     if case['docformat'] == 'plaintext':
         effective = 'plaintext'
